@@ -326,7 +326,7 @@ def _set_op(c):
 def cases(tier, rng):
     big = tier in ("thorough", "widen")
     fmts = ["bed", "bed6", "narrowpeak", "vcf", "vcfg", "sam", "fastq", "fasta2", "bam", "gtf"]
-    per = {"quick": 170, "thorough": 2500, "widen": 700}[tier]
+    per = {"quick": 500, "thorough": 4000, "widen": 1200}[tier]
     L = 6 if big else 3
     # 0. fixed small programs on every format (identity, reverse, repeat, double selection then concatenate)
     for fmt in fmts:
@@ -617,6 +617,8 @@ def _chunk_parts(c, k, size):
 
 
 def model_request(c):
+    if c["op"] != "prog":
+        return None
     tabs = [list(t) for t in c["recs"]]
 
     def tr(p):
